@@ -187,7 +187,7 @@ def _mk_callable(rt, path, nd, entry):
     dflt = set(dict(map(tuple, nd["pmap"]))[p] for p in nd["defaults"])
     sig = [p for p in orig if p not in dflt] + [p for p in orig if p in dflt]
     dv = dict(map(tuple, nd.get("dvals", [])))
-    params = ", ".join((f"{p}={IR.pyval(dv[p])!r}" if p in dv else f"{p}='dflt.{p}'") if p in dflt else p for p in sig)
+    params = ", ".join((f"{p}=OBJ" if dv.get(p) == "~obj" else f"{p}={IR.pyval(dv[p])!r}" if p in dv else f"{p}='dflt.{p}'") if p in dflt else p for p in sig)
     argt = "(" + "".join(f"({p!r}, {p}), " for p in orig) + ")"
     fname = nd.get("fname", nd["name"])
     is_async = nd["is_async"] and entry == "call"
@@ -212,7 +212,7 @@ def _mk_callable(rt, path, nd, entry):
         # a docstring makes this a DIFFERENT definition (other constants) with the same name, parameters and outputs
         head, body = src.split("\n", 1)
         src = head + f"\n    {nd['deftag']!r}\n" + body
-    ns = {"RT": rt}
+    ns = {"RT": rt, "OBJ": IR.OBJ}
     exec(src, ns)  # noqa: S102 - harness-generated source
     if shared:
         rt.shared_funcs[nd["fid"]] = ns[fname]
